@@ -1,0 +1,41 @@
+//go:build verif
+
+package verifier
+
+// Contracts for gvc (contract-based deductive verification, see /verif/DESIGN.md).
+// Comment-only file, compiled only under the build tag "verif".
+//
+// Offline verification wiring (C14, C07): every verdict of the returned session comes from the corresponding evidence
+// replay / passive authentication / completeness check on the imported document, with the verifier's own trust store;
+// a supplied active-authentication challenge that differs from the recorded nonce is a hard error; the whole call runs
+// with the verifier's mutex held and releases it on every path.
+
+//@ func (v *Verifier) WithAAChallenge
+//@   props C14 C07
+//@   requires v != nil && !v.mu.held
+//@   ensures "eight-octets-or-rejected": (result1 == nil) == (len(challenge) == 8)
+//@   ensures "stored-as-given": result1 == nil ==> result0 == v && v.aaChallenge === challenge && v.aaChallenge != nil
+//@   ensures "rejected-challenge-changes-nothing": result1 != nil ==> result0 == nil && v.aaChallenge == old(v.aaChallenge)
+//@   ensures "lock-released": !v.mu.held
+//@   assigns v.aaChallenge, v.mu
+//@   safety all
+
+//@ func (v *Verifier) Verify
+//@   props C14 C07
+//@   requires v != nil && !v.mu.held && v.cscaCertPool != nil && (v.aaChallenge != nil ==> allocated(v.aaChallenge))
+//@   ensures "lock-released": !v.mu.held
+//@   ensures "document-or-error": (result0 != nil) == (result1 == nil)
+//@   proves "nonce-binding": result1 == nil && v.aaChallenge != nil && caBundle.ActiveAuth != nil ==> caBundle.ActiveAuth.Nonce === v.aaChallenge
+//@   proves "active-authentication-verdict-from-the-recorded-evidence": result1 == nil && caBundle.ActiveAuth != nil && result0.Session.ActiveAuthResult != nil && result0.Session.ActiveAuthResult.Success ==>
+//@        result0.Session.ActiveAuthErr == nil && result0.Session.ActiveAuthResult.Evidence != nil
+//@        && result0.Session.ActiveAuthResult.Evidence.Nonce === caBundle.ActiveAuth.Nonce && result0.Session.ActiveAuthResult.Evidence.Signature === caBundle.ActiveAuth.Signature
+//@   proves "chip-authentication-verdict-from-the-recorded-evidence": result1 == nil && result0.Session.ChipAuthResult != nil ==> caBundle.ChipAuth != nil && result0.Session.ChipAuthErr == nil
+//@        && result0.Session.ChipAuthResult.Success && result0.Session.ChipAuthResult.Evidence == caBundle.ChipAuth
+//@   proves "pace-cam-verdict-from-the-recorded-evidence": result1 == nil && result0.Session.PaceCamResult != nil ==> caBundle.PaceCam != nil && result0.Session.PaceErr == nil
+//@        && result0.Session.PaceCamResult.Success && result0.Session.PaceCamResult.Evidence == caBundle.PaceCam
+//@   proves "no-evidence-no-verdict": result1 == nil ==> (caBundle.ActiveAuth == nil ==> result0.Session.ActiveAuthResult == nil) && (caBundle.ChipAuth == nil ==> result0.Session.ChipAuthResult == nil)
+//@        && (caBundle.PaceCam == nil ==> result0.Session.PaceCamResult == nil)
+//@   proves "passive-authentication-with-the-verifiers-trust-store": result1 == nil ==> result0.Session.PassiveAuthResult != nil
+//@        && (result0.Session.PassiveAuthResult.Success == (result0.Session.PassiveAuthErr == nil))
+//@   assigns v.mu
+//@   safety all
